@@ -258,29 +258,48 @@ Proof. intros H. cbn [step_pc]. rewrite H. reflexivity. Qed.
 Definition race_threads : list pc := [S_cas 1 None; D_die 0; D_die 0; S_cas 1 None].
 Definition race_sched : list nat :=
   [0; 1; 1; 1; 2; 2; 2; 1; 2; 2; 2; 2; 2; 3; 1; 1; 1; 1].
-Definition race_end : cfg := run race_sched (init_cfg 2 1 race_threads).
-
-Definition restart_race_b : bool :=
-  ast_eqb (st (sh race_end)) SL && (na (sh race_end) =? 2) && (length (terms (sh race_end)) =? 2) &&
-  stopped (sh race_end).
+(* boolean form: the application is Loaded, both members of the new run are alive, the Terminate
+   callback has run twice and the new run's stopped channel is closed *)
+Definition restart_race_b (threads : list pc) (sched : list nat) : bool :=
+  let c := run sched (init_cfg 2 1 threads) in
+  ast_eqb (st (sh c)) SL && (na (sh c) =? 2) && (length (terms (sh c)) =? 2) && stopped (sh c).
 
 Theorem restart_race_refuted :
-  exists threads sched, forallb initial_pc threads = true /\
-    let c := run sched (init_cfg 2 1 threads) in
-    st (sh c) = SL /\ na (sh c) = 2 /\ length (terms (sh c)) = 2 /\ stopped (sh c) = true.
-Proof.
-  exists race_threads, race_sched. split; [reflexivity|].
-  assert (H : restart_race_b = true) by (vm_compute; reflexivity).
-  unfold restart_race_b in H. fold race_end.
-  repeat (apply andb_true_iff in H as [H ?]).
-  repeat split; try (apply Nat.eqb_eq; assumption); try assumption.
-  destruct (st (sh race_end)); try discriminate; reflexivity.
-Qed.
+  exists threads sched, forallb initial_pc threads = true /\ restart_race_b threads sched = true.
+Proof. exists race_threads, race_sched. split; vm_compute; reflexivity. Qed.
+
+(* the same schedule is not admissible: the guard skips the second start while a terminate call is
+   in flight, and the invariant holds at its end *)
+Example restart_race_guarded :
+  restart_race_b race_threads race_sched = true /\
+  na (sh (run_adm race_sched (init_cfg 2 1 race_threads))) = 0.
+Proof. split; vm_compute; reflexivity. Qed.
 
 (* the hypotheses are satisfiable by a non-trivial run: permanent application, two members, one dies
    abnormally while a stop call and the other member's death race; the run ends loaded, one callback *)
 Example guarded_run_nontrivial :
-  let c := run_adm [0; 1; 1; 3; 3; 1; 2; 2; 1; 1; 3; 2; 2; 2; 2; 2; 2; 2; 1; 1; 1; 3; 3; 3; 3; 3; 3]
+  let c := run_adm [0; 1; 1; 3; 3; 1; 2; 2; 1; 1; 3; 2; 2; 2; 2; 2; 2; 2; 1; 1; 1; 3; 3; 3; 3; 3; 3; 1; 1; 1; 1; 2; 2; 2; 2; 3; 3; 3]
                    (init_cfg 2 3 [S_cas 3 None; D_die 4; D_die 1; P_cas false 3]) in
-  st (sh c) = SL /\ na (sh c) = 0 /\ terms (sh c) = [4] /\ starts (sh c) = 1.
+  st (sh c) = SL /\ na (sh c) = 0 /\ terms (sh c) = [1] /\ starts (sh c) = 1 /\
+  thr c = [Done 0; Done 0; Done 0; Done 0].
 Proof. vm_compute. repeat split. Qed.
+
+(* ---- the cause under concurrency (known finding cause-race) ------------------------------- *)
+(* a.reason is written AFTER the CAS Running->Stopping: a permanent application whose two members
+   die concurrently with reasons 4 and 3 (both abnormal) can hand `normal` (0) to the Terminate
+   callback - the second member finalises the run between the first one's CAS and its write.
+   The schedule respects the guard. *)
+Definition cause_threads : list pc := [S_cas 3 None; D_die 4; D_die 3].
+Definition cause_sched : list nat := [0; 1; 1; 1; 1; 2; 2; 2; 2; 2; 2; 2; 2; 2; 1; 1; 1; 1; 1].
+Definition cause_race_b (threads : list pc) (sched : list nat) : bool :=
+  let c := run_adm sched (init_cfg 2 3 threads) in
+  ast_eqb (st (sh c)) SL && (na (sh c) =? 0) &&
+  match terms (sh c) with [r] => r =? 0 | _ => false end.
+
+Theorem cause_race_refuted :
+  exists threads sched, forallb initial_pc threads = true /\ cause_race_b threads sched = true.
+Proof. exists cause_threads, cause_sched. split; vm_compute; reflexivity. Qed.
+
+(* what does hold for every guarded schedule: the reason handed over is the content of a.reason,
+   which only ever holds a reason written by a stop call, by a member whose death switched the
+   state, or `normal` - and in the sequential model (App/SeqProofs.v) it is exactly the cause. *)
